@@ -656,6 +656,12 @@ class ProgGen:
             self.taint = t0 | mutated
             ch = self.child(env)
             blk = self.block(ch, depth + 1, rng.randint(1, 3))[0]
+            if j + 1 < n_br + (1 if has_else else 0) and rng.random() < 0.6:
+                # "adding assignments in other branches": re-assign a tracked constant in a branch that has later siblings
+                cands = [x for x in self.known(env, STR_N + INT_N) if self.writable(env, x)]
+                if cands:
+                    x = rng.choice(cands)
+                    blk.insert(rng.randint(0, len(blk)), ("assign", x, repr(rng.choice(STRS) + "!") if x in STR_N else str(rng.randint(10, 31))))
             # the sibling fold: look at what earlier branches assigned
             extra = []
             for x in sorted(assigned):
@@ -1201,6 +1207,9 @@ WITNESSES = {
         "prog": [("assign", "vp", "[1, 0]"), ("rt", "vm", 19), ("remove", "vp", "vm"), ("flash", "vp")], "dr": [], "ar": []},
     "F-C03-stale-glyph-row": {
         "prog": [("assign", "va", "1"), ("if", [("assign", "va", "2")], []), ("glyph", ["va", "0", "0", "0", "0", "0", "0", "0"])], "dr": [1], "ar": []},
+    "F-C03-def-time-global": {
+        "prog": [("assign", "vs", "'ab'"), ("def", "fn", [("va", "int")], [("len", "vs")]), ("assign", "vs", "'abcdef'"),
+                 ("call", "fn", ["0"], [0])], "dr": [], "ar": []},
     "F-C03-unary-plus-identity": {
         "prog": [("assign", "vs", "f\"{+True}\""), ("len", "vs")], "dr": [], "ar": []},
 }
